@@ -25,6 +25,21 @@ CHECKS = {
              "(exercised with 1/2/4/8/12/16-byte element types). VectorStorage beyond capacity is a listed known finding (test-pinned defect).",
         technique="Coq proof (simulation relation to lastn N h, induction over push histories) + model/implementation differential correspondence",
         design="§7 C07"),
+    "C17": dict(
+        text="Theorems (Coq, every dimension kind 1..4, all extents, all points, all values, all store/load sequences): get(set g p v) p = v, "
+             "other cells unchanged, fresh grid reads default, a load returns the most recent store (run_model = run_spec), out-of-bounds by the code's per-axis "
+             "condition panics; proved once for a generic array level and instantiated four times with the code's coordinate order. Model tied to the safe and the unsafe "
+             "Grid builds by differential runs (all-pairs sweeps on 32 shapes, random sequences, OOB).",
+        note=LEVEL_NOTE_COMMON + "Axioms: none. Nested fixed-size arrays modelled as nested lists; RefCell / raw-pointer write as plain update; single-threaded.",
+        technique="Coq proof (generic level laws lifted through 4 nesting levels; induction over op sequences) + differential correspondence (safe and unsafe builds)",
+        design="§7 C17"),
+    "C16": dict(
+        text="Theorems (Coq, all four node kinds, update and adjust, every node value, every grid content): the model of the eight functions satisfies the whole property "
+             "(Ok => every owned coordinate = new / old+delta, others untouched; Err => node unchanged; inadmissible => Err; admissible => Ok). The same executable predicate "
+             "(adj_check) is the oracle applied to the implementation's output; correspondence by exhaustive sign patterns {-,0,+}^k x {-,0,+}^k.",
+        note=LEVEL_NOTE_COMMON + "Axioms: none. Integers modelled as Z (values whose sums fit); grid reads go through the C17 grid model with the exact PointIndex the code builds.",
+        technique="Coq proof (case analysis over straight-line model, checker soundness by construction) + exhaustive differential correspondence + proved checker as oracle",
+        design="§7 C16"),
 }
 
 ALL = [f"C{n:02d}" for n in range(1, 20)]
